@@ -1,2 +1,13 @@
 import BacVerif.Props.C06
+#print axioms BacVerif.C06.no_echo
+#print axioms BacVerif.C06.hop_decrement
+#print axioms BacVerif.C06.hop_exhausted
+#print axioms BacVerif.C06.local_stays_local
+#print axioms BacVerif.C06.station_never_forwards
+#print axioms BacVerif.C06.sadr_rule
+#print axioms BacVerif.C06.local_delivery_iff
+#print axioms BacVerif.C06.source_shown
+#print axioms BacVerif.C06.recv_is_route
+#print axioms BacVerif.C06.forwarding_chain_bound
+#print axioms BacVerif.C06.forwarding_terminates
 #print axioms BacVerif.C06.hop_measure
